@@ -407,12 +407,17 @@ int main(){
 				// (finding F-C10-13); `still-descending-large-gradient` = the last step still decreased the value and the
 				// projected gradient has norm^2 > 4 (finding F-C10-14: Cauchy step too short by the factor |p0|^2); `frozen` = the
 				// last step did not change the value
-				double pg2 = 0;
+				// `frozen-near-bound` = frozen, and a movable variable is heading for a bound that is closer than 1e-9 (but not
+				// within the 1e-13 of the active-set rule): the step is clipped to that distance and is too short for the line
+				// search to see a decrease (finding F-C10-15)
+				double pg2 = 0; bool nearBound = false;
 				for(std::size_t i = 0; i != g.size(); ++i){
 					bool blk = f->boxed && ((x(i) - 1e-13 < f->lo(i) && g(i) > 0) || (x(i) + 1e-13 > f->hi(i) && g(i) < 0));
 					if(!blk) pg2 += g(i) * g(i);
+					if(f->boxed && !blk && g(i) > 0 && x(i) - f->lo(i) <= 1e-9) nearBound = true;
+					if(f->boxed && !blk && g(i) < 0 && f->hi(i) - x(i) <= 1e-9) nearBound = true;
 				}
-				if(!okc) out << " !oracle not-converged" << (outside ? "-slack-outside " : (g_lastDecrease > 0 ? (pg2 > 4 ? "-still-descending-large-gradient " : "-still-descending ") : "-frozen ")) << gn;
+				if(!okc) out << " !oracle not-converged" << (outside ? "-slack-outside " : (g_lastDecrease > 0 ? (pg2 > 4 ? "-still-descending-large-gradient " : "-still-descending ") : (nearBound ? "-frozen-near-bound " : "-frozen "))) << gn;
 			}else if(t[0] == "boxdir"){
 				std::size_t n = f->n;
 				std::size_t m = std::stoul(t.at(1));
